@@ -334,7 +334,7 @@ Definition classify_num (t : list N) : num :=
     (if dot then NComplex (dec_of neg ds fs 0)
      else if too_long ds then NBad
      else if (2 ^ 1024 - 2 ^ 970 <=? dec_val ds) then NBad   (* int too large to convert to float *)
-     else NComplex (dec_of neg ds [] 0))
+     else NComplex (dec_of (neg && negb (dec_val ds =? 0)) ds [] 0))   (* -0 is the int 0 *)
   else NBad
   end end end end end.
 
